@@ -6,6 +6,7 @@ from ..model import cols
 from .c10 import partitions, spec_of
 
 LEVEL = "exploration"
+SUITE_MONITOR = True      # also judge the repository's own tests/doctests through rv/monitors.py
 RULE = ("Every string up to length N (4 quick, 6 thorough) over {2 narrow, 2 double-width, 1 "
         "combining} x run partitions (with empty runs) x columns 2..7: "
         "list(f.width_aware_splitlines(columns)) is executed and compared line by line with a "
